@@ -64,13 +64,16 @@ TWriteDone == /\ IsEvent("WriteDone") /\ Run /\ ~Ev.inline
                  ELSE IF Ev.ec = "ok" THEN WriteDone(Ev.s, Ev.h, Ev.n)
                  ELSE Ev.ec \in {"not_connected", "eof", "bad_descriptor"} /\ WriteFailed(Ev.s, Ev.h)
 TRead == IsEvent("Read") /\ Run /\ sk[Ev.s].conn = Ev.conn /\ StartRead(Ev.s, Ev.h, Ev.style, Ev.cap)
-ReadOutcome == IF Ev.ec = "ok" THEN ReadData(Ev.s, Ev.h, Ev.n, Ev.sid, Ev.off)
-               ELSE Ev.ec = "eof" /\ ReadEof(Ev.s, Ev.h)
+Current == sk[Ev.s].rd # None /\ sk[Ev.s].rd.h = Ev.h
+ReadOutcome == IF Current THEN (IF Ev.ec = "ok" THEN ReadData(Ev.s, Ev.h, Ev.n, Ev.sid, Ev.off)
+                                ELSE Ev.ec = "eof" /\ ReadEof(Ev.s, Ev.h))
+               ELSE (IF Ev.ec = "ok" THEN ReadDataLate(Ev.s, Ev.n, Ev.sid, Ev.off)
+                     ELSE Ev.ec = "eof" /\ ReadEofLate(Ev.s))
 TReadDone == /\ IsEvent("ReadDone") /\ Run /\ ~Ev.inline
              /\ IF Ev.stale \/ Ev.ec = "aborted" THEN Aborted(Ev.s) ELSE ReadOutcome
 TReady == /\ IsEvent("Ready") /\ Run /\ ~Ev.inline
           /\ IF Ev.stale \/ Ev.ec = "aborted" THEN Aborted(Ev.s)
-             ELSE Ev.ec \in {"ok", "eof"} /\ Ready(Ev.s, Ev.h)
+             ELSE Ev.ec \in {"ok", "eof"} /\ (IF Current THEN Ready(Ev.s, Ev.h) ELSE ReadyLate(Ev.s))
 TReadSome == IsEvent("ReadSome") /\ Run /\ ReadOutcome
 TClose == IsEvent("Close") /\ Run /\ CloseSock(Ev.s)
 TCancel == IsEvent("Cancel") /\ Run /\ CancelSock(Ev.s)
